@@ -101,7 +101,9 @@ CovRun(tx, i, coin, hdr, bytesOf) ==
              d == Decode(c.bytes)
          IN IF ~d.ok THEN "undecodable"
             ELSE LET env == [ptxb |-> tx.ins[i].txb, pidx |-> tx.ins[i].idx, covb |-> bytesOf[coin.cov], val |-> coin.val,
-                             denomb |-> bytesOf[coin.denom], data |-> coin.data, h |-> coin.h, sidx |-> i - 1, hdr |-> hdr]
+                             denomb |-> bytesOf[coin.denom], data |-> coin.data, h |-> coin.h,
+                             sidx |-> (i - 1) % 256,      \* the environment's spender index is one byte: positions wrap at 256 (mirrors CovenantEnv)
+                             hdr |-> hdr]
                      out == Run(d.ops, HeapFromEnv(tx, env), OracleOf(tx.facts), 200000)
                  IN IF out.res.t = "missing" THEN "missing"
                     ELSE IF out.res.t \in {"fail", "capped"} THEN "fails"
